@@ -331,6 +331,10 @@ func (db *MultiBucketBackend) BucketExists(name string) (exists bool, err error)
 }
 
 func (db *MultiBucketBackend) HeadObject(bucketName, objectName string) (*gofakes3.Object, error) {
+	if !keyInsideBucket(objectName) {
+		return nil, gofakes3.KeyNotFound(objectName)
+	}
+
 	db.lock.Lock()
 	defer db.lock.Unlock()
 
@@ -370,6 +374,10 @@ func (db *MultiBucketBackend) HeadObject(bucketName, objectName string) (*gofake
 }
 
 func (db *MultiBucketBackend) GetObject(bucketName, objectName string, rangeRequest *gofakes3.ObjectRangeRequest) (obj *gofakes3.Object, rerr error) {
+	if !keyInsideBucket(objectName) {
+		return nil, gofakes3.KeyNotFound(objectName)
+	}
+
 	db.lock.Lock()
 	defer db.lock.Unlock()
 
@@ -438,6 +446,9 @@ func (db *MultiBucketBackend) PutObject(
 	meta map[string]string,
 	input io.Reader, size int64,
 ) (result gofakes3.PutObjectResult, err error) {
+	if !keyInsideBucket(objectName) {
+		return result, errKeyNotInsideBucket(objectName)
+	}
 
 	err = gofakes3.MergeMetadata(db, bucketName, objectName, meta)
 	if err != nil {
@@ -547,6 +558,11 @@ func (db *MultiBucketBackend) DeleteObject(bucketName, objectName string) (resul
 }
 
 func (db *MultiBucketBackend) deleteObjectLocked(bucketName, objectName string) error {
+	if !keyInsideBucket(objectName) {
+		// such a key cannot have been stored: nothing to delete
+		return nil
+	}
+
 	fullPath := path.Join(bucketName, objectName)
 
 	// S3 does not report an error when attemping to delete a key that does not exist, so
